@@ -332,6 +332,28 @@ func c12Units(tier string, seed int64) []Unit {
 				}
 			}}
 		}},
+		// collections that reject elements (duplicate keys): the rejected attempts are pruned from the recording
+		// that minimization starts from, and the result still has exactly k elements
+		{"SliceOfDistinct(IntRange(0,9))", func(k int) c12Case {
+			g := rapid.SliceOfDistinct(rapid.IntRange(0, 9), rapid.ID[int])
+			return c12Case{name: fmt.Sprintf("SliceOfDistinct(IntRange(0,9)) len>=%d", k), want: fmt.Sprint(k), prop: func(t *rapid.T, out *string) {
+				s := g.Draw(t, "s")
+				*out = fmt.Sprint(len(s))
+				if len(s) >= k {
+					t.Fatalf("too long: %d", len(s))
+				}
+			}}
+		}},
+		{"MapOfN(IntRange(0,9),Int(),3,-1)", func(k int) c12Case {
+			g := rapid.MapOfN(rapid.IntRange(0, 9), rapid.Int(), 3, -1)
+			return c12Case{name: fmt.Sprintf("MapOfN(IntRange(0,9),Int(),3,-1) len>=%d", k), want: fmt.Sprint(k), prop: func(t *rapid.T, out *string) {
+				m := g.Draw(t, "m")
+				*out = fmt.Sprint(len(m))
+				if len(m) >= k {
+					t.Fatalf("too big: %d", len(m))
+				}
+			}}
+		}},
 		{"MapOf(Int32(),Bool())", func(k int) c12Case {
 			g := rapid.MapOf(rapid.Int32(), rapid.Bool())
 			return c12Case{name: fmt.Sprintf("MapOf(Int32(),Bool()) len>=%d", k), want: fmt.Sprint(k), prop: func(t *rapid.T, out *string) {
@@ -345,6 +367,9 @@ func c12Units(tier string, seed int64) []Unit {
 	}
 	for _, ck := range colls {
 		for k := 0; k <= 32; k++ {
+			if strings.Contains(ck.name, "IntRange(0,9)") && (k > 9 || strings.HasPrefix(ck.name, "MapOfN") && k < 3) {
+				continue // ten possible keys; MapOfN(...,3,-1) never has fewer than 3 entries
+			}
 			ck, k := ck, k
 			units = append(units, Unit{Name: fmt.Sprintf("C12/%s/k=%d", ck.name, k), Run: func(c *Ctx) {
 				cs := ck.mk(k)
@@ -376,6 +401,9 @@ func c12Units(tier string, seed int64) []Unit {
 				ns := 20
 				if !quick {
 					ns = 300
+				}
+				if strings.Contains(ck.name, "IntRange(0,9)") {
+					ns *= 5 // the interesting starts contain rejected elements
 				}
 				for s := 0; s < ns; s++ {
 					var out string
